@@ -19,6 +19,7 @@ class Body:
         self.impl_of_trait = j.get("impl_of_trait")
         self.impl_self = j.get("impl_self")
         self.trait_default_of = j.get("trait_default_of")
+        self.generics = j.get("generics") or []      # names of the type parameters in substitution order
         self.debug = j["debug"]
         self._cfg()
 
@@ -418,6 +419,14 @@ class Program:
                 if d in self.bodies:
                     out.append(d)
                 return (d, out, "dyn")
+        if fn.get("trait") and binding and fn.get("self_ty") is not None:
+            # std trait method called on a type parameter of the enclosing generic helper (`source: &mut impl Read`): with the
+            # parameter bound at the inlined call this is the impl of the concrete type, named like a directly resolved call
+            t = self.types[fn["self_ty"]]
+            if t["k"] == "param" and t["name"] in binding:
+                ct = self.types[binding[t["name"]]]
+                if ct["k"] not in ("param", "dyn", "closure", "fndef", "fnptr"):     # (callables keep the Fn* trait name: they are invoked by value)
+                    return ("<%s as %s>::%s" % (ct["s"], fn["trait"], d.rsplit("::", 1)[-1]), [], "ext")
         return (d, [], "ext")
 
 
